@@ -81,6 +81,12 @@ def enumerated(tier, seed):
     body = [" ORG $2000\n", "START LDX #ROW3\n", " LDA MID\n", " FDB LAST,ROW2,MID\n", "TAB EQU START+3\n", " LDY #TAB\n"]
     for order in (list(range(8)), list(range(7, -1, -1)), [3, 7, 1, 5, 0, 6, 2, 4], [5, 4, 3, 2, 7, 6, 1, 0]):
         yield dict(p=[defs[i] for i in order[:4]] + body + [defs[i] for i in order[4:]], qs=[], fresh=True, hashseeds=list(range(10)))
+    # a directive repeated with different operands (NAM, ORG before code, SETDP, END): whichever one counts, it must be
+    # the same one under every hash seed
+    multi = [" NAM ALPHA\n", " ORG $1000\n", " NAM BRAVO\n", " ORG $2000\n", " SETDP 1\n", "L0 LDA #1\n", " NAM GAMMA\n", " SETDP 2\n", " NAM DELTA\n",
+             " END L0\n", " NAM ECHO\n"]
+    for variant in (multi, multi[::2] + [" NOP \n"], [l for l in multi if " ORG " not in l]):
+        yield dict(p=variant, qs=[], fresh=True, hashseeds=list(range(10)))
     # histories with INCLUDE: failures below an include must not leak into later assemblies
     files = {"outer.asm": [" NOP \n", " INCLUDE inner.asm\n"], "inner.asm": ["LI LDA #1\n"], "bad.asm": [" INCLUDE gone.asm\n"],
              "loop.asm": [" INCLUDE loop.asm\n"], "broken.asm": [" NOP \n", " INCLUDE syntax.asm\n"], "syntax.asm": [" FOO 1\n"]}
@@ -117,8 +123,9 @@ def _tables_hash():
     import cocoasm.statement as cs
     import cocoasm.values as cv
     h = hashlib.blake2b(digest_size=8)
-    h.update(repr(ci.INSTRUCTIONS).encode())
-    h.update(repr(co.REGISTERS).encode())
+    # module-level tables, if the tree (still) has them under these names
+    h.update(repr(getattr(ci, "INSTRUCTIONS", None)).encode())
+    h.update(repr(getattr(co, "REGISTERS", None)).encode())
     for mod in (co, cs, cv):
         for name in sorted(dir(mod)):
             obj = getattr(mod, name)
